@@ -38,10 +38,7 @@ import (
 	"verifharness/sim"
 )
 
-func TestMain(m *testing.M) { sim.Main(m, gen, run) }
-func TestSim(t *testing.T)  { sim.RunTest(t) }
-
-func gen(a hx.Args) {
+func genIdem(a hx.Args) {
 	r := hx.NewRng(a.Seed)
 	n := a.N(250, 2500)
 	for i := 0; i < n; i++ {
@@ -81,8 +78,6 @@ func errClass(err error) string {
 	return "other"
 }
 
-var portBase atomic.Int64
-
 // parseProduce decodes a produce request frame (after the 4-byte size).
 func parseProduce(frame []byte) (*kmsg.ProduceRequest, bool) {
 	if len(frame) < 8 {
@@ -115,7 +110,7 @@ func parseProduceResp(version int16, frame []byte) (*kmsg.ProduceResponse, bool)
 	return resp, true
 }
 
-func run(t *testing.T, tk []string) string {
+func runIdem(t *testing.T, tk []string) string {
 	if tk[0] != "idem" || len(tk) != 11 {
 		return "bad-op"
 	}
@@ -393,11 +388,4 @@ func run(t *testing.T, tk []string) string {
 	log.Add("Q")
 	hx.St.Inc("scen.total")
 	return fmt.Sprintf("cfg:%d ", parts) + log.String()
-}
-
-func b2i(b bool) int {
-	if b {
-		return 1
-	}
-	return 0
 }
